@@ -132,6 +132,20 @@ func c09EndsOpen(doc ast.Node, src []byte) (bool, string) {
 	return false, ""
 }
 
+// c09LastChainHasRawBlock: does the document end in (or inside) a block whose content is taken verbatim, line endings included?
+func c09LastChainHasRawBlock(doc ast.Node) bool {
+	for n := doc.LastChild(); n != nil; n = n.LastChild() {
+		switch n.(type) {
+		case *ast.CodeBlock, *ast.HTMLBlock, *ast.FencedCodeBlock:
+			return true
+		}
+		if n.Type() == ast.TypeInline {
+			break
+		}
+	}
+	return false
+}
+
 var c09HTMLEnds = map[ast.HTMLBlockType][]string{
 	ast.HTMLBlockType1: {"</script>", "</pre>", "</style>", "</textarea>"},
 	ast.HTMLBlockType2: {"-->"},
@@ -297,6 +311,28 @@ func c09EvalIndep(md goldmark.Markdown, cs *c09Indep) (status, locus, detail str
 	want = append(want, h.html...)
 	want = append(want, rb.Out...)
 	if bytes.Equal(rc.Out, want) {
+		// The same relation for A WITHOUT its final newline (the statement does not ask for one). Skipped when A ends in a code
+		// or HTML block, whose content includes its line endings: there the unterminated form differs by that byte alone.
+		if n := len(cs.a); n > 1 && cs.a[n-1] == '\n' && cs.a[n-2] != '\n' && cs.arena == nil && !c09LastChainHasRawBlock(ra.Doc) {
+			au := cs.a[:n-1]
+			ru := convert(md, au)
+			var srcu []byte
+			srcu = append(srcu, au...)
+			srcu = append(srcu, "\n\n"...)
+			srcu = append(srcu, h.line...)
+			srcu = append(srcu, "\n\n"...)
+			srcu = append(srcu, cs.b...)
+			rcu := convert(md, srcu)
+			if ru.OK() && rcu.OK() {
+				var wantu []byte
+				wantu = append(wantu, ru.Out...)
+				wantu = append(wantu, h.html...)
+				wantu = append(wantu, rb.Out...)
+				if !bytes.Equal(rcu.Out, wantu) {
+					return "bad", "unterminated-A:" + firstBlockKind(ra.Doc, true), fmt.Sprintf("A without a final newline: combined source %s\n%s", q(srcu), firstDiff(rcu.Out, wantu)), ra.Doc, rb.Doc
+				}
+			}
+		}
 		return "ok", "", "", ra.Doc, rb.Doc
 	}
 	// locus: which side diverges
@@ -725,6 +761,14 @@ func runC09(c *core.Ctx) {
 	specs := c09Specs()
 	corpus := loadCorpus(c)
 	r := c.Rng
+	// (0) regression seeds: witnesses of repaired defects (72eab90: a tab-indented short last line taken for blank)
+	if c.Shard == 0 {
+		for _, a := range []string{"> \t#\n", "> \t##\n", "- \t#\n", "1. \t#\n", "> \t:\n", "> \t-\n", ">  \t#\n"} {
+			for si, sp := range specs {
+				c09CheckIndep(c, pool, sp, &c09Indep{a: []byte(a), b: []byte("after\n"), h: si})
+			}
+		}
+	}
 	// (i) independence
 	n1 := c.PerShard(c.N(600000, 25000000))
 	for i := 0; i < n1; i++ {
